@@ -43,8 +43,13 @@ def prepare(name, appends):
         shutil.rmtree(os.path.join(d, "src"), ignore_errors=True)
     os.makedirs(d, exist_ok=True)
     shutil.copytree(os.path.join(REPO, "src"), os.path.join(d, "src"))
-    for f in ("Cargo.toml", "Cargo.lock"):
-        shutil.copy(os.path.join(REPO, f), os.path.join(d, f))
+    shutil.copy(os.path.join(REPO, "Cargo.toml"), os.path.join(d, "Cargo.toml"))
+    # Cargo.lock is not tracked by the repository: a fresh worktree has none; the one setup.sh copied for the dependency
+    # build (same versions) stands in
+    for lock in (os.path.join(REPO, "Cargo.lock"), os.path.join(ROOT, "build", "depcrate", "Cargo.lock.repo")):
+        if os.path.exists(lock):
+            shutil.copy(lock, os.path.join(d, "Cargo.lock"))
+            break
     os.makedirs(os.path.join(d, ".cargo"), exist_ok=True)
     open(os.path.join(d, ".cargo", "config.toml"), "w").write("[net]\noffline = true\n")
     n1 = 0
